@@ -1,8 +1,8 @@
 SPECIFICATION Spec
 CONSTANTS
-  Senders = {"o1", "o2", "a1", "a2", "b1"}
+  Senders = {"o1", "o2", "a1", "b1"}
   EchoSenders = {"o1"}
-  MsgKeys = {"o1", "o2", "a1", "a2", "b1"}
+  MsgKeys = {"o1", "o2", "a1", "b1", "k"}
   MaxDec = 1
   ManualMax = 1
   Combos <- CombosAll
